@@ -80,8 +80,28 @@ func (r *rwRT) optInterp(root *ssa.Function) *Interp {
 // matchCall finds the call o.m.Match(pattern, callback) on the single path of fn.
 func (r *rwRT) matchCall(fn *ssa.Function) (*State, AV, AV, *Interp) {
 	in := r.optInterp(fn)
-	outs := in.Run(nil, fn, []AV{Sym{Name: "o", NN: true}}, nil)
+	// the receiver is the optimizer its constructor builds (tables it keeps start out as the constructor leaves
+	// them, e.g. empty memo maps); a symbolic receiver is the fallback
+	var recv AV = Sym{Name: "o", NN: true}
+	var st0 *State
+	if mk := r.w.FuncOpt(pathRw, "mkOptimizer"); mk != nil && mk.Signature.Params().Len() == 1 {
+		inC := r.optInterp(mk)
+		co := inC.Run(nil, mk, []AV{Sym{Name: "o.m", NN: true}}, nil)
+		r.account(inC)
+		if len(co) == 1 && !co[0].Panicked && len(co[0].Ret) == 1 {
+			if ref, ok := co[0].Ret[0].(Ref); ok && co[0].St.Obj(ref) != nil {
+				recv, st0 = ref, co[0].St
+			}
+		}
+	}
+	outs := in.Run(st0, fn, []AV{recv}, nil)
 	r.account(in)
+	if (len(outs) != 1 || outs[0].Panicked || outs[0].St.Truncated) && st0 != nil {
+		// fall back to the symbolic receiver
+		in = r.optInterp(fn)
+		outs = in.Run(nil, fn, []AV{Sym{Name: "o", NN: true}}, nil)
+		r.account(in)
+	}
 	if len(outs) != 1 || outs[0].Panicked || outs[0].St.Truncated {
 		undecided("%s is not a single complete path (%d paths)", relName(fn), len(outs))
 	}
